@@ -262,6 +262,7 @@ type decEncoderField struct {
 	arrayLength byte
 	index       int
 	isExtension bool
+	isArray     bool
 }
 
 // NewReadWriter allocates a ReadWriter.
@@ -379,6 +380,7 @@ func (rw *ReadWriter) Initialize() error {
 				return fieldGoToDef(field.Name)
 			}(),
 			arrayLength: arrayLength,
+			isArray:     arrayLength > 0 && !(goType.Kind() == reflect.String && field.Tag.Get("mavlen") == ""),
 			index:       i,
 			isExtension: isExtension,
 		}
@@ -417,7 +419,7 @@ func (rw *ReadWriter) Initialize() error {
 			h.Write([]byte(fieldTypeString[f.ftype] + " "))
 			h.Write([]byte(f.name + " "))
 
-			if f.arrayLength > 0 {
+			if f.isArray {
 				h.Write([]byte{f.arrayLength})
 			}
 		}
